@@ -171,6 +171,9 @@ class G:
                     y = self.fresh()
                     self.emit("clone %s %s" % (y, x))
                     self.emit("%s %s %d %d" % (op, y, max(0, a), b))
+                    # … and the chunk is flipped afterwards (runs that touch without having been fused would show here)
+                    self.emit("flip %s %d %d" % (y, base, base + 40000))
+                    self.emit("wf %s" % y)
             self.emit("dig %s" % x)
             self.count("hist:run-range-episode")
         for _ in range(nhist):
